@@ -143,16 +143,20 @@ def Param.read (s0 : InStream) (nbCharInName : Int) : RRes (Param × Int) :=
   let (dims, s5) : List Nat × InStream :=
     if nDim = 0 then ([1], s4) else readMany (fun s => s.readUint 1) nDim s4
   let remaining := s5.remaining
-  -- the size check, dimension by dimension
+  -- the size check: an empty shape has nothing to read; otherwise, dimension by dimension
+  let firstIsLength : Bool := ty == .char && decide (dims.length > 1)
+  let nBytes0 : Nat := if dims.any (· == 0) then 0 else len.natAbs
+  let nValues0 : Nat :=
+    if (enum dims).any (fun (i, d) => d == 0 && (decide (i > 0) || !firstIsLength)) then 0 else 1
   let rec sizeOk (ds : List Nat) (i : Nat) (nBytes nValues : Nat) : Option Nat :=
     match ds with
     | [] => some nValues
     | d :: rest =>
-      let nBytes' := u64 (nBytes * d)
-      let nValues' := if i > 0 ∨ ty ≠ .char ∨ dims.length = 1 then u64 (nValues * d) else nValues
+      let nBytes' := if nBytes ≠ 0 then u64 (nBytes * d) else nBytes
+      let nValues' := if nValues ≠ 0 ∧ (i > 0 ∨ !firstIsLength) then u64 (nValues * d) else nValues
       if nBytes' > remaining ∨ nValues' > remaining + 0xFFFF then none
       else sizeOk rest (i + 1) nBytes' nValues'
-  match sizeOk dims 0 len.natAbs 1 with
+  match sizeOk dims 0 nBytes0 nValues0 with
   | none => rthrow .ios_failure
   | some nValues =>
   let p0 : Param := { name := name, locked := nbCharInName < 0, type := ty, dims := dims }
